@@ -33,7 +33,8 @@ class Recorder:
 
             cv = np.array(c, dtype=float).reshape(-1)
             nz = [j for j, x in enumerate(cv) if x != 0]
-            self.calls.append({"c": cv.tolist(), "n": int(np.array(A_ub).shape[0]), "st": int(res["status"]),
+            am = np.array(A_ub) if A_ub is not None else np.zeros((0, 0))
+            self.calls.append({"c": cv.tolist(), "n": int(am.shape[0]) if am.ndim >= 1 else 0, "st": int(res["status"]),
                                "fun": float(res["fun"]) if res["status"] == 0 and res["fun"] is not None else 0.0, "nz": nz})
             return res
 
